@@ -40,6 +40,7 @@ TARGETS = {
     "c17_fence":  ("nompi", ["harness/c17_fence.cpp"], False),
     "c17_asm":    ("nompi", ["harness/c17_asm.cpp"], False),
     "simmpi_selftest": ("mpi", ["harness/simmpi_selftest.cpp"], True),
+    "race_selftest": ("nompi", ["harness/race_selftest.cpp"], False),
     "c12_domain": ("mpi", ["harness/c12_domain.cpp"], True),
     "c13_scalar": ("mpi", ["harness/c13_scalar.cpp"], True),
     "c13_app":    ("mpi", ["harness/c13_app.cpp"], True),
@@ -65,6 +66,7 @@ PROPERTY_TARGETS = {
     "C05": ["c05_streams", "c05_checkpoint", "c05_streams.guard", "c05_meta"],
     "C11": ["c11_mesh", "c11_pmap", "c11_mesh.guard", "c11_pmap.guard"],
     "SIMMPI": ["simmpi_selftest"],
+    "RACE": ["race_selftest.race", "race_selftest"],
 }
 
 
